@@ -48,6 +48,13 @@ def sample_config(rng, idx):
     if idx % 5 == 0 and cfg["outlier_prob"] == 0.0:
         cfg["outlier_prob"] = 0.3
     cfg["seed"] = int(rng.integers(0, 2 ** 31))
+    cfg["heavy"] = idx % 20 == 7
+    if cfg["heavy"]:
+        # a large data set (many samples, big deeply sequenced clusters): |log_p_one| of magnitude 1e4-1e5
+        cfg.update(clustered=True, D=[10, 6, 12][(idx // 20) % 3], n=7, grid_size=[101, 21][(idx // 20) % 2], max_time=float("inf"),
+                   num_iters=max(cfg["num_iters"], 4), num_samples_data_point=max(cfg["num_samples_data_point"], 1))
+        if cfg["outlier_prob"] == 1.0:
+            cfg["outlier_prob"] = 1e-4
     cfg["inject"] = None
     if cfg["concentration_update"] and cfg["outlier_prob"] > 0 and idx % 3 == 0:
         cfg["inject"] = {"value": INJECT[(idx // 3) % len(INJECT)], "every": 1 + (idx // 15) % 2}
@@ -125,12 +132,20 @@ def run_task(task):
             rng = np.random.default_rng([task["seed"], idx, 19])
             cfg = sample_config(rng, idx)
             n_mut = cfg["n"] if not cfg["clustered"] else cfg["n"] + int(rng.integers(0, 4))
-            rows, samples = inputs.make_table(rng, n_mut, cfg["D"], tumour_content=bool(idx % 2),
-                                              error_rate=bool(idx % 3 == 0), string_ids=True)
+            if cfg.get("heavy"):
+                rows, crow = inputs.heavy_table(rng, n_samples=cfg["D"], n_big=3, n_weak=cfg["n"] - 3)
+                n_mut = len(rows) // cfg["D"]
+                part.count("heavy_inputs")
+            else:
+                rows, samples = inputs.make_table(rng, n_mut, cfg["D"], tumour_content=bool(idx % 2),
+                                                  error_rate=bool(idx % 3 == 0), string_ids=True)
             in_file = os.path.join(tmpdir, "in_%d.tsv" % idx)
             inputs.write_table(rows, in_file)
             cluster_file = None
-            if cfg["clustered"]:
+            if cfg.get("heavy"):
+                cluster_file = os.path.join(tmpdir, "cl_%d.tsv" % idx)
+                inputs.write_table(crow, cluster_file)
+            elif cfg["clustered"]:
                 crow, _assign = inputs.make_clusters(rng, rows, cfg["n"])
                 cluster_file = os.path.join(tmpdir, "cl_%d.tsv" % idx)
                 inputs.write_table(crow, cluster_file)
